@@ -96,7 +96,8 @@ var interpretableInit = map[string]bool{"unicode": true, "unicode/utf8": true, "
 	"strings": true, "bytes": true, "bufio": true, "errors": true, "io": true, "sort": true, "slices": true, "cmp": true,
 	"math/bits": true, "math": true, "encoding/hex": true, "encoding/csv": true, "net/url": true, "path": true, "path/filepath": true,
 	"golang.org/x/net/html": true, "golang.org/x/net/html/atom": true, "html": true, "maps": true, "iter": true,
-	"encoding/binary": false, "encoding/xml": true,
+	"encoding/binary": false, "encoding/xml": true, "archive/zip": true, "compress/flate": true, "compress/zlib": true,
+	"hash/adler32": true, "io/fs": true, "internal/oserror": true, "encoding/base64": true, "image/color": true,
 	"golang.org/x/text/encoding/charmap": true, "golang.org/x/text/encoding": true, "golang.org/x/text/encoding/internal": true,
 	"golang.org/x/text/encoding/internal/identifier": true, "golang.org/x/text/transform": true}
 
